@@ -141,6 +141,10 @@ PIVOT_CONFIGS = [
     (('a', 'a2'), (), ('v',)),
     (('a2',), ('a',), ('w',)),
     (('a',), ('b', 'b2'), ('v', 'w')),
+    # data fields listed in an order other than their column order in the source
+    (('a',), ('b',), ('w', 'v')),
+    (('a',), (), ('w', 'v')),
+    (('a2',), ('b', 'b2'), ('w', 'v')),
 ]
 
 
